@@ -123,7 +123,7 @@ def spec_labels(spec):
     return out
 
 
-def gen_input(rng: random.Random, spec: dict, *, max_side=8, max_inst=4, allow_1d=False) -> dict:
+def gen_input(rng: random.Random, spec: dict, *, max_side=8, max_inst=4, allow_1d=False, exotic=False) -> dict:
     """A prediction/reference pair valid for `spec` (labels inside the groups, dtype accepted
     by the input type).  Instances are boxes; prediction instances are jittered copies of
     reference instances, dropped or added at random, so that TP/FP/FN and empty cases occur."""
@@ -199,4 +199,16 @@ def gen_input(rng: random.Random, spec: dict, *, max_side=8, max_inst=4, allow_1
     if rng.random() < 0.08:
         pred = [0] * vol
     order = rng.choice(["C", "C", "C", "F"])
-    return {"shape": shape, "dtype": dtype, "pred": pred, "ref": ref, "order": order}
+    out = {"shape": shape, "dtype": dtype, "pred": pred, "ref": ref, "order": order}
+    if exotic:
+        # memory-level variety of the caller's arrays: read-only buffers (an in-place write by the
+        # library raises instead of passing silently), non-contiguous views, prediction and
+        # reference being one and the same object
+        if rng.random() < 0.2:
+            out["readonly"] = True
+        if rng.random() < 0.15:
+            out["strided"] = True
+        if rng.random() < 0.05:
+            out["alias"] = True
+            out["ref"] = list(out["pred"])
+    return out
